@@ -8,7 +8,7 @@ from hypothesis import strategies as st
 from .. import cachelab as CL
 from ..harness import SubCheck, require
 
-NAMES6 = ["a", "b", "c", "d", "e", "f"]
+NAMES6 = ["a", "b", "c", "d", "e", "f", "z"]      # "z" is an empty (0-byte) resource
 LIMITS = [x * 1000 for x in [1000, 1000, 800, 1200, 1500, 700, 5000, 100]]
 
 META = {
